@@ -52,7 +52,7 @@ def gen_case(rng, root, family, tier):
     owners = None
     if W.gpg_available() and rng.random() < 0.15:
         # gpg verifier keys (a master without / with signing subkeys, signed by the master itself or a subkey)
-        mname = rng.choice(["no_sub", "no_sub2", "one_sub", "two_subs"])
+        mname = rng.choice(["no_sub", "no_sub2", "one_sub", "two_subs", "expired", "expired"])
         master = W.gpg_key(mname)
         subs = [x for x in (master.pub.get("subkeys") or {}) if x in W.SIGNING_SUBKEYS]
         owners = [master]
@@ -124,6 +124,11 @@ def gen_case(rng, root, family, tier):
         edited = "content" if (before != after or err) else "parse_equal"
         desc["classified"] = edited
     exp_ok = expected_accept(scn, base_content, edited, lt)
+    if owners and mname == "expired" and gpg_signer is master:
+        # the verifier's key is past its validity period: a signature made with it is not a valid signature any more
+        # (the signing subkey of that key carries no period of its own in the exported bundle: DESIGN 10.3)
+        exp_ok = False
+        desc["verifier_key"] = "gpg key past its validity period, signed by the key itself"
     desc["expected_accept"] = exp_ok
     return scn, desc
 
